@@ -1,41 +1,62 @@
-/* C18 harness: a serial simulator of multi-worker task-parallel executions that drives the
- * DAG Recorder's instrumentation entry points (dr_start__, dr_start_task__, dr_begin_section__,
- * dr_enter_create_task__, dr_return_from_create_task__, dr_enter_wait_tasks__,
- * dr_return_from_wait_tasks__, dr_enter_other__, dr_return_from_other__, dr_end_task__, dr_stop__)
- * of the CURRENT tree with explicit worker ids and a virtual clock (MYTH_VERIF hook
- * g_dr_verif_clock), under several contraction settings, and prints the root totals.
+/* C18 harness: a simulator of multi-worker task-parallel executions that drives the DAG Recorder of
+ * the CURRENT tree through its PUBLIC macro layer (dr_start, dr_start_task, dr_begin_section,
+ * dr_enter_create_task, dr_return_from_create_task, dr_enter_wait_tasks, dr_return_from_wait_tasks,
+ * dr_enter_other, dr_return_from_other, dr_end_task, dr_stop, dr_dump of dag_recorder.h; the client
+ * supplies dr_get_worker() / dr_get_max_workers() as the adaptors in src/tpswitch and
+ * src/mtbb/task_group.h do) with simulated worker ids and a virtual clock (MYTH_VERIF hook
+ * g_dr_verif_clock), under several contraction settings and several DRIVING ORDERS, and prints the
+ * root totals, the generated report and the interval stream delivered by the recorder's hooks.
  *
  * Built together with the profiler sources of vlib.REPO (see tools/props/c18.py).
  *
  * Case language (one case per line; the same line is read by ocaml/driver_C18.ml):
  *   case    := NW NSET setting*NSET task
- *   setting := UMIN CMAX NCT PRUNE CMC CHK       (uncollapse_min collapse_max node_count_target
+ *   setting := UMIN CMAX NCT PRUNE CMC CHK ORDER ARRAY
+ *                                                (uncollapse_min collapse_max node_count_target
  *                                                 prune_threshold collapse_max_count chk_level;
  *                                                 CHK >= 10: keep the library's default thresholds,
- *                                                 chk_level = CHK - 10)
+ *                                                 chk_level = CHK - 10;
+ *                                                 ORDER: 0 work-first (a created task runs to completion
+ *                                                 before its parent continues), 1 help-first (the parent
+ *                                                 continues; tasks start later, oldest first; a task ends
+ *                                                 after its parent entered wait_tasks), >= 2: a seeded
+ *                                                 random interleaving of the tasks;
+ *                                                 ARRAY: dr_options.worker_specific_state_array; 0 = the
+ *                                                 library's default, per-worker state found through a
+ *                                                 pthread key: every simulated worker is then a real OS
+ *                                                 thread that makes that worker's calls)
  *   task    := 'T' titem* 'e' leaf
  *   titem   := 'o' leaf | section
- *   section := ('S' | 'B') sitem* 'w' leaf       ('B': opened by dr_begin_section__; 'S': opened
+ *   section := ('S' | 'B') sitem* 'w' leaf       ('B': opened by dr_begin_section; 'S': opened
  *                                                 implicitly by the first create/wait when that is
  *                                                 possible, else as 'B')
  *   sitem   := 'o' leaf | 'c' leaf task | section
  *   leaf    := START END WORKER                   (virtual clock readings at the start / end of the
  *                                                 interval and the worker that executes it)
- * A child task runs to completion at its creation (serial simulation); the interval that follows
- * a create / wait / other may run on another worker (the continuation migrated).
+ * The unit of interleaving is one interval: the call that starts it (dr_start_task /
+ * dr_return_from_*), the dr_begin_section calls made during it, the call that ends it (dr_enter_* /
+ * dr_end_task) - a worker executes an interval without running anything else in between.  A task can
+ * start once the interval that creates it has ended; the interval after a wait can start once all
+ * tasks created in that section have ended.
  *
  * Output: one line per case:
  *   seg ('|' seg)*      one seg per setting:
  *   rc=R t1=.. tinf=.. nodes=c,w,o,e edges=end,create,ccont,wcont,ocont cur=.. mat=..
  *      ; stat work=.. tinf=.. cr=.. wt=.. en=.. dagnodes=.. mat=.. sedges=end,create,ccont,wcont,ocont
- *      ; ev <hook events>
+ *      ; ev <hook events, each tagged @task>
+ *      ; cov P=<n_workers of the report> col=<contracted subgraphs left in memory>
+ *            interior=<closes at which something below the closing node was contracted while it stayed>
  * Each setting runs in a forked child (the recorder's own checks call exit(1)).
  */
 #define DAG_RECORDER 2
+static int g_cur_worker, g_max_workers;
+#define dr_get_worker() (g_cur_worker)
+#define dr_get_max_workers() (g_max_workers)
 #include "dag_recorder_impl.h"
 #include <sys/wait.h>
 #include <fcntl.h>
 #include <unistd.h>
+#include <stdarg.h>
 
 extern unsigned long long (*g_dr_verif_clock)(void);
 static unsigned long long vclock;
@@ -50,11 +71,10 @@ typedef struct tnode {
   struct tnode * child;  /* c */
 } tnode;
 
-typedef struct { unsigned long long umin, cmax; long nct, prune, cmc; int chk; } setting_t;
+typedef struct { unsigned long long umin, cmax; long nct, prune, cmc; int chk; long order; int array; } setting_t;
 
 static char ** toks; static int ntok, tpos;
 static const char * nexttok(void) { if (tpos >= ntok) { fprintf(stderr, "c18_sim: truncated case\n"); exit(3); } return toks[tpos++]; }
-static const char * peektok(void) { return tpos < ntok ? toks[tpos] : ""; }
 static leaf_t parse_leaf(void) {
   leaf_t l; l.s = strtoull(nexttok(), 0, 10); l.e = strtoull(nexttok(), 0, 10); l.w = atoi(nexttok()); return l;
 }
@@ -85,114 +105,91 @@ static tnode * parse_task(void) {   /* after 'T' */
   }
 }
 
-/* ---------------- the steps of one task, in program order ---------------- */
-typedef struct { char op; /* 'b' begin_section, 'o' 'c' 'w' 'e' interval ending that way */ leaf_t leaf; tnode * child; } step_t;
-typedef struct { step_t * v; int n; } steps_t;
-static void push_step(steps_t * S, char op, leaf_t l, tnode * child) {
-  S->v = realloc(S->v, sizeof(step_t) * (S->n + 1)); S->v[S->n].op = op; S->v[S->n].leaf = l; S->v[S->n].child = child; S->n++;
+/* ---------------- tasks and their steps, in program order ---------------- */
+typedef struct {
+  char op;               /* 'o' 'c' 'w' 'e': an interval ending that way */
+  leaf_t leaf;
+  int nbegin;            /* dr_begin_section calls made during this interval */
+  int child;             /* c: id of the created task */
+  int * waited; int nwaited;   /* w: the tasks created directly in the section that closes */
+} step_t;
+typedef struct {
+  step_t * v; int n;
+  int pos;               /* next interval */
+  int startable;         /* the creating interval has ended (root: 1) */
+  dr_dag_node * create;  /* the create_task interval that made this task */
+  dr_dag_node * handle;  /* what the last dr_enter_* returned */
+  dr_dag_node * node;    /* the task node (from the start_task hook) */
+  int done;
+} task_t;
+static task_t * tasks; static int ntasks;
+
+static int pending_begin;
+static int new_task(void) { tasks = realloc(tasks, sizeof(task_t) * (ntasks + 1)); memset(&tasks[ntasks], 0, sizeof(task_t)); return ntasks++; }
+static step_t * push_step(int tk, char op, leaf_t l) {
+  task_t * T = &tasks[tk];
+  T->v = realloc(T->v, sizeof(step_t) * (T->n + 1));
+  memset(&T->v[T->n], 0, sizeof(step_t));
+  T->v[T->n].op = op; T->v[T->n].leaf = l; T->v[T->n].nbegin = pending_begin; T->v[T->n].child = -1;
+  pending_begin = 0;
+  return &T->v[T->n++];
 }
-static void flatten_section(steps_t * S, tnode * s, int under_task) {
+static void flatten_task(int tk, tnode * T);
+static void flatten_section(int tk, tnode * s, int under_task) {
   int explicit_open = (s->tag == 'B') || !under_task || (s->n > 0 && s->items[0]->tag != 'c');
-  leaf_t z = {0, 0, 0};
-  int i;
-  if (explicit_open) push_step(S, 'b', z, 0);
+  int i, * waited = 0, nwaited = 0;
+  if (explicit_open) pending_begin++;
   for (i = 0; i < s->n; i++) {
     tnode * x = s->items[i];
-    if (x->tag == 'o') push_step(S, 'o', x->leaf, 0);
-    else if (x->tag == 'c') push_step(S, 'c', x->leaf, x->child);
-    else flatten_section(S, x, 0);
+    if (x->tag == 'o') push_step(tk, 'o', x->leaf);
+    else if (x->tag == 'c') {
+      int ch = new_task();
+      int at = tasks[tk].n;
+      push_step(tk, 'c', x->leaf);
+      tasks[tk].v[at].child = ch;
+      waited = realloc(waited, sizeof(int) * (nwaited + 1)); waited[nwaited++] = ch;
+      { int saved = pending_begin; pending_begin = 0; flatten_task(ch, x->child); pending_begin = saved; }
+    }
+    else flatten_section(tk, x, 0);
   }
-  push_step(S, 'w', s->leaf, 0);
+  { step_t * w = push_step(tk, 'w', s->leaf); w->waited = waited; w->nwaited = nwaited; }
 }
-static void flatten_task(steps_t * S, tnode * T) {
+static void flatten_task(int tk, tnode * T) {
   int i;
   for (i = 0; i < T->n; i++) {
     tnode * x = T->items[i];
-    if (x->tag == 'o') push_step(S, 'o', x->leaf, 0);
-    else flatten_section(S, x, 1);
+    if (x->tag == 'o') push_step(tk, 'o', x->leaf);
+    else flatten_section(tk, x, 1);
   }
-  push_step(S, 'e', T->leaf, 0);
+  push_step(tk, 'e', T->leaf);
 }
 
 /* ---------------- hook events (the raw interval stream for the oracle) ---------------- */
 static char * evbuf; static size_t evlen, evcap;
+static int cur_task, cur_child;
 static void ev(const char * fmt, ...) __attribute__((format(printf, 1, 2)));
-#include <stdarg.h>
 static void ev(const char * fmt, ...) {
-  char tmp[128]; va_list ap; int k;
+  char tmp[160]; va_list ap; int k;
   va_start(ap, fmt); k = vsnprintf(tmp, sizeof tmp, fmt, ap); va_end(ap);
   if (evlen + k + 1 > evcap) { evcap = (evcap + k + 1) * 2; evbuf = realloc(evbuf, evcap); }
   memcpy(evbuf + evlen, tmp, k + 1); evlen += k;
 }
 static int hk_interval(dr_dag_node * n) {
   static const char kc[] = "cwoe";
-  int k = n->info.kind;
-  ev(" %c:%llu:%llu:%d", (k >= 0 && k < 4) ? kc[k] : '?', n->info.start.t, n->info.end.t, n->info.worker);
+  static const char ec[] = "ECKWO";      /* end, create, create_cont, wait_cont, other_cont */
+  int k = n->info.kind, e = n->info.in_edge_kind;
+  ev(" %c:%llu:%llu:%d:%c@%d", (k >= 0 && k < 4) ? kc[k] : '?', n->info.start.t, n->info.end.t, n->info.worker,
+     (e >= 0 && e < 5) ? ec[e] : '?', cur_task);
+  if (k == dr_dag_node_kind_create_task) ev(">%d", cur_child);
   return 0;
 }
-static int hk_start_task(dr_dag_node * n) { (void)n; ev(" T"); return 0; }
-static int hk_begin_section(dr_dag_node * n) { (void)n; ev(" B"); return 0; }
-static int hk_ret_create(dr_dag_node * n) { (void)n; ev(" rc"); return 0; }
-static int hk_ret_wait(dr_dag_node * n) { (void)n; ev(" rw"); return 0; }
-static int hk_ret_other(dr_dag_node * n) { (void)n; ev(" ro"); return 0; }
+static int hk_start_task(dr_dag_node * n) { tasks[cur_task].node = n; ev(" T@%d", cur_task); return 0; }
+static int hk_begin_section(dr_dag_node * n) { (void)n; ev(" B@%d", cur_task); return 0; }
+static int hk_ret_create(dr_dag_node * n) { (void)n; ev(" rc@%d", cur_task); return 0; }
+static int hk_ret_wait(dr_dag_node * n) { (void)n; ev(" rw@%d", cur_task); return 0; }
+static int hk_ret_other(dr_dag_node * n) { (void)n; ev(" ro@%d", cur_task); return 0; }
 
-/* ---------------- the simulator ---------------- */
-static const char * F = "c18_sim.c";
-static int is_root_running;
-
-static void run_task(tnode * T, dr_dag_node * parent, dr_options * opts, int nw) {
-  steps_t S = {0, 0};
-  int i, j;
-  dr_dag_node * t = 0;
-  leaf_t first;
-  flatten_task(&S, T);
-  for (j = 0; S.v[j].op == 'b'; j++) ;
-  first = S.v[j].leaf;
-  vclock = first.s;
-  if (!parent && !is_root_running) {
-    is_root_running = 1;
-    dr_start__(opts, F, 1, first.w, nw);    /* reads the clock twice: start_clock, start of the first interval */
-  } else {
-    dr_start_task__(parent, F, 2, first.w);
-  }
-  /* cur = the worker that executes the running interval */
-  int cur = first.w;
-  for (i = 0; i < S.n; i++) {
-    step_t * st = &S.v[i];
-    leaf_t nl; int k;
-    if (st->op == 'b') { dr_begin_section__(cur); continue; }
-    /* the interval that follows this one in the same task */
-    for (k = i + 1; k < S.n && S.v[k].op == 'b'; k++) ;
-    if (k < S.n) nl = S.v[k].leaf; else { nl.s = 0; nl.e = 0; nl.w = 0; }
-    vclock = st->leaf.e;
-    switch (st->op) {
-    case 'o':
-      t = dr_enter_other__(F, 3, st->leaf.w);
-      vclock = nl.s; cur = nl.w;
-      dr_return_from_other__(t, F, 4, nl.w);
-      break;
-    case 'c': {
-      dr_dag_node * c = 0;
-      t = dr_enter_create_task__(&c, F, 5, st->leaf.w);
-      run_task(st->child, c, opts, nw);
-      vclock = nl.s; cur = nl.w;
-      dr_return_from_create_task__(t, F, 6, nl.w);
-      break;
-    }
-    case 'w':
-      t = dr_enter_wait_tasks__(F, 7, st->leaf.w);
-      vclock = nl.s; cur = nl.w;
-      dr_return_from_wait_tasks__(t, F, 8, nl.w);
-      break;
-    case 'e':
-      if (!parent) dr_stop__(F, 9, st->leaf.w); else dr_end_task__(F, 10, st->leaf.w);
-      break;
-    }
-  }
-  free(S.v);
-}
-
-/* number of nodes actually present in the in-memory DAG */
+/* number of nodes actually present in the in-memory DAG / of contracted subgraphs among them */
 static long count_mat(dr_dag_node * n) {
   if (n->info.kind == dr_dag_node_kind_create_task) return 1 + (n->child ? count_mat(n->child) : 0);
   if (n->info.kind >= dr_dag_node_kind_section) {
@@ -202,6 +199,137 @@ static long count_mat(dr_dag_node * n) {
   }
   return 1;
 }
+static long count_col(dr_dag_node * n) {
+  if (n->info.kind == dr_dag_node_kind_create_task) return n->child ? count_col(n->child) : 0;
+  if (n->info.kind >= dr_dag_node_kind_section) {
+    long c = 0; dr_dag_node * ch;
+    if (!n->subgraphs->head) return 1;
+    for (ch = n->subgraphs->head; ch; ch = ch->next) c += count_col(ch);
+    return c;
+  }
+  return 0;
+}
+
+/* ---------------- the simulator ---------------- */
+static long n_interior;
+static int track_interior;
+
+/* a close (of the section that was just waited for, or of a task) happened inside the call made
+   between the two counts: did it contract something below the closing node and keep that node? */
+static void note_close(long before, dr_dag_node * closed) {
+  long after = count_mat(GS.root);
+  if (after < before && closed && closed->info.kind >= dr_dag_node_kind_section && closed->subgraphs->head) n_interior++;
+}
+
+static int unit_ready(task_t * T) {
+  if (T->done || !T->startable) return 0;
+  if (T->pos > 0 && T->v[T->pos - 1].op == 'w') {
+    step_t * w = &T->v[T->pos - 1]; int i;
+    for (i = 0; i < w->nwaited; i++) if (!tasks[w->waited[i]].done) return 0;
+  }
+  return 1;
+}
+
+/* ---- one OS thread per simulated worker (list mode: the recorder keys its state on the thread) ---- */
+#define MAXW 64
+static int use_threads;
+static pthread_t w_thr[MAXW]; static int w_started[MAXW];
+static pthread_mutex_t w_mu = PTHREAD_MUTEX_INITIALIZER;
+static pthread_cond_t w_cv = PTHREAD_COND_INITIALIZER;
+static int job_worker = -1, job_done;
+static void (*job_fn)(int, dr_options *); static int job_tk; static dr_options * job_opts;
+static void * worker_main(void * a) {
+  int w = (int)(long)a;
+  pthread_mutex_lock(&w_mu);
+  for (;;) {
+    while (job_worker != w) pthread_cond_wait(&w_cv, &w_mu);
+    job_fn(job_tk, job_opts);
+    job_worker = -1; job_done = 1;
+    pthread_cond_broadcast(&w_cv);
+  }
+  return 0;
+}
+static void on_worker(int w, void (*fn)(int, dr_options *), int tk, dr_options * opts) {
+  if (!use_threads) { fn(tk, opts); return; }
+  if (w < 0 || w >= MAXW) { fprintf(stderr, "c18_sim: worker id out of range\n"); exit(3); }
+  pthread_mutex_lock(&w_mu);
+  if (!w_started[w]) { w_started[w] = 1; pthread_create(&w_thr[w], 0, worker_main, (void *)(long)w); }
+  job_fn = fn; job_tk = tk; job_opts = opts; job_done = 0; job_worker = w;
+  pthread_cond_broadcast(&w_cv);
+  while (!job_done) pthread_cond_wait(&w_cv, &w_mu);
+  pthread_mutex_unlock(&w_mu);
+}
+
+/* execute one interval of task tk (on the thread of the worker that executes it) */
+static void run_unit(int tk, dr_options * opts) {
+  task_t * T = &tasks[tk];
+  step_t * st = &T->v[T->pos];
+  int i;
+  cur_task = tk;
+  g_cur_worker = st->leaf.w;
+  vclock = st->leaf.s;
+  /* the call that starts the interval */
+  if (T->pos == 0) {
+    if (tk == 0) dr_start(opts);        /* reads the clock twice: start_clock, start of the first interval */
+    else dr_start_task(T->create);
+  } else {
+    switch (T->v[T->pos - 1].op) {
+    case 'o': dr_return_from_other(T->handle); break;
+    case 'c': dr_return_from_create_task(T->handle); break;
+    case 'w': {
+      long before = track_interior ? count_mat(GS.root) : 0;
+      dr_return_from_wait_tasks(T->handle);
+      if (track_interior) note_close(before, dr_task_last_node(T->handle));
+      break;
+    }
+    }
+  }
+  for (i = 0; i < st->nbegin; i++) dr_begin_section();
+  /* the call that ends it */
+  vclock = st->leaf.e;
+  switch (st->op) {
+  case 'o': T->handle = dr_enter_other(); break;
+  case 'c': {
+    dr_dag_node * c = 0;
+    cur_child = st->child;
+    T->handle = dr_enter_create_task(&c);
+    tasks[st->child].create = c; tasks[st->child].startable = 1;
+    break;
+  }
+  case 'w': T->handle = dr_enter_wait_tasks(); break;
+  case 'e': {
+    long before = track_interior ? count_mat(GS.root) : 0;
+    if (tk == 0) dr_stop(); else dr_end_task();
+    if (track_interior) note_close(before, T->node);
+    T->done = 1;
+    break;
+  }
+  }
+  T->pos++;
+}
+
+static void run_all(dr_options * opts, long order) {
+  unsigned long long rs = 0x9E3779B97F4A7C15ull * (unsigned long long)(order + 1);
+  int left = ntasks, i;
+  for (i = 0; i < ntasks; i++) { tasks[i].pos = 0; tasks[i].done = 0; tasks[i].startable = (i == 0); }
+  while (left > 0) {
+    int pick = -1;
+    if (order == 0) {            /* work-first: the newest task that can run */
+      for (i = ntasks - 1; i >= 0; i--) if (unit_ready(&tasks[i])) { pick = i; break; }
+    } else if (order == 1) {     /* help-first: the oldest task that can run */
+      for (i = 0; i < ntasks; i++) if (unit_ready(&tasks[i])) { pick = i; break; }
+    } else {
+      int n = 0, k;
+      for (i = 0; i < ntasks; i++) if (unit_ready(&tasks[i])) n++;
+      rs = rs * 6364136223846793005ull + 1442695040888963407ull;
+      k = n ? (int)((rs >> 33) % (unsigned)n) : 0;
+      for (i = 0; i < ntasks; i++) if (unit_ready(&tasks[i]) && k-- == 0) { pick = i; break; }
+    }
+    if (pick < 0) { fprintf(stderr, "c18_sim: no task can run\n"); exit(3); }
+    on_worker(tasks[pick].v[tasks[pick].pos].leaf.w, run_unit, pick, opts);
+    if (tasks[pick].done) left--;
+  }
+}
 
 static long long stat_num(const char * txt, const char * key) {
   const char * p = strstr(txt, key);
@@ -210,20 +338,20 @@ static long long stat_num(const char * txt, const char * key) {
   if (!p) return -1;
   return strtoll(p + 1, 0, 10);
 }
-/* sum of the (nw+1)x(nw+1) matrix printed after the given header line */
-static long long stat_matrix_sum(const char * txt, const char * header, int nw) {
+/* sum of the (P+1)x(P+1) matrix printed after the given header line */
+static long long stat_matrix_sum(const char * txt, const char * header, long long P) {
   const char * p = strstr(txt, header);
-  long long s = 0; int i;
-  if (!p) return -1;
+  long long s = 0, i;
+  if (!p || P < 0 || P > 4096) return -1;
   p += strlen(header);
-  for (i = 0; i < (nw + 1) * (nw + 1); i++) { char * q; long long v = strtoll(p, &q, 10); if (q == p) return -1; s += v; p = q; }
+  for (i = 0; i < (P + 1) * (P + 1); i++) { char * q; long long v = strtoll(p, &q, 10); if (q == p) return -1; s += v; p = q; }
   return s;
 }
 
-static void run_setting(tnode * root, setting_t * st, int nw, const char * dir, FILE * out) {
+static void run_setting(setting_t * st, int nw, const char * dir, FILE * out) {
   dr_options opts[1];
   char prefix[512], path[600];
-  dr_options_default_(opts);
+  dr_options_default(opts);
   snprintf(prefix, sizeof prefix, "%s/c18_%d", dir, (int)getpid());
   opts->dag_file_prefix = prefix;
   opts->dag_file_yes = 0; opts->stat_file_yes = 1; opts->gpl_file_yes = 0; opts->dot_file_yes = 0; opts->text_file_yes = 0;
@@ -232,7 +360,8 @@ static void run_setting(tnode * root, setting_t * st, int nw, const char * dir, 
     opts->node_count_target = st->nct; opts->prune_threshold = st->prune; opts->collapse_max_count = st->cmc;
   }                             /* chk >= 10: the library's default thresholds */
   opts->chk_level = (char)(st->chk % 10);
-  opts->worker_specific_state_array = 1;
+  opts->worker_specific_state_array = (char)st->array;
+  use_threads = !st->array;
   opts->on = 1; opts->verbose_level = 0; opts->dbg_level = 0; opts->papi_on = 0; opts->record_cpu = 0;
   opts->hooks.start_task = hk_start_task; opts->hooks.begin_section = hk_begin_section;
   opts->hooks.enter_create_task = hk_interval; opts->hooks.enter_wait_tasks = hk_interval;
@@ -240,9 +369,11 @@ static void run_setting(tnode * root, setting_t * st, int nw, const char * dir, 
   opts->hooks.return_from_create_task = hk_ret_create; opts->hooks.return_from_wait_tasks = hk_ret_wait;
   opts->hooks.return_from_other = hk_ret_other;
   g_dr_verif_clock = vclock_read;
+  g_max_workers = nw;
   evlen = 0; ev("%s", "");
-  is_root_running = 0;
-  run_task(root, 0, opts, nw);
+  n_interior = 0;
+  track_interior = (opts->node_count_target != 0);
+  run_all(opts, st->order);
   {
     dr_dag_node_info * I = &GS.root->info;
     fprintf(out, "rc=0 t1=%llu tinf=%llu nodes=%ld,%ld,%ld,%ld edges=%ld,%ld,%ld,%ld,%ld cur=%ld mat=%ld",
@@ -254,23 +385,29 @@ static void run_setting(tnode * root, setting_t * st, int nw, const char * dir, 
             I->logical_edge_counts[dr_dag_edge_kind_other_cont], I->cur_node_count, count_mat(GS.root));
   }
   fflush(out);
-  /* the report generated by the recorder itself */
-  dr_dump_();
-  snprintf(path, sizeof path, "%s.stat", prefix);
   {
-    FILE * fp = fopen(path, "r");
-    if (!fp) { fprintf(out, " ; stat missing"); }
-    else {
-      static char txt[1 << 16]; size_t n = fread(txt, 1, sizeof txt - 1, fp); txt[n] = 0; fclose(fp); unlink(path);
-      fprintf(out, " ; stat work=%lld tinf=%lld cr=%lld wt=%lld en=%lld dagnodes=%lld mat=%lld sedges=%lld,%lld,%lld,%lld,%lld",
-              stat_num(txt, "work (T1)"), stat_num(txt, "critical_path (T_inf)"), stat_num(txt, "create_task "),
-              stat_num(txt, "wait_tasks "), stat_num(txt, "end_task "), stat_num(txt, "dag nodes"), stat_num(txt, "materialized nodes"),
-              stat_matrix_sum(txt, "end-parent edges:\n", nw), stat_matrix_sum(txt, "create-child edges:\n", nw),
-              stat_matrix_sum(txt, "create-cont edges:\n", nw), stat_matrix_sum(txt, "wait-cont edges:\n", nw),
-              stat_matrix_sum(txt, "other-cont edges:\n", nw));
+    long col = count_col(GS.root);
+    long long P = -1;
+    /* the report generated by the recorder itself */
+    dr_dump();
+    snprintf(path, sizeof path, "%s.stat", prefix);
+    {
+      FILE * fp = fopen(path, "r");
+      if (!fp) { fprintf(out, " ; stat missing"); }
+      else {
+        static char txt[1 << 18]; size_t n = fread(txt, 1, sizeof txt - 1, fp); txt[n] = 0; fclose(fp); unlink(path);
+        P = stat_num(txt, "n_workers (P)");
+        fprintf(out, " ; stat work=%lld tinf=%lld cr=%lld wt=%lld en=%lld dagnodes=%lld mat=%lld sedges=%lld,%lld,%lld,%lld,%lld",
+                stat_num(txt, "work (T1)"), stat_num(txt, "critical_path (T_inf)"), stat_num(txt, "create_task "),
+                stat_num(txt, "wait_tasks "), stat_num(txt, "end_task "), stat_num(txt, "dag nodes"), stat_num(txt, "materialized nodes"),
+                stat_matrix_sum(txt, "end-parent edges:\n", P), stat_matrix_sum(txt, "create-child edges:\n", P),
+                stat_matrix_sum(txt, "create-cont edges:\n", P), stat_matrix_sum(txt, "wait-cont edges:\n", P),
+                stat_matrix_sum(txt, "other-cont edges:\n", P));
+      }
     }
+    fprintf(out, " ; ev%s", evbuf);
+    fprintf(out, " ; cov P=%lld col=%ld interior=%ld", P, col, n_interior);
   }
-  fprintf(out, " ; ev%s", evbuf);
   fflush(out);
 }
 
@@ -293,9 +430,12 @@ int main(int argc, char ** argv) {
     for (i = 0; i < nset; i++) {
       sets[i].umin = strtoull(nexttok(), 0, 10); sets[i].cmax = strtoull(nexttok(), 0, 10);
       sets[i].nct = atol(nexttok()); sets[i].prune = atol(nexttok()); sets[i].cmc = atol(nexttok()); sets[i].chk = atoi(nexttok());
+      sets[i].order = atol(nexttok()); sets[i].array = atoi(nexttok());
     }
     if (strcmp(nexttok(), "T")) { fprintf(stderr, "c18_sim: T expected\n"); exit(3); }
     root = parse_task();
+    ntasks = 0; tasks = 0; pending_begin = 0;
+    flatten_task(new_task(), root);
     for (i = 0; i < nset; i++) {
       int fd[2]; pid_t pid; int status = 0; char buf[4096]; ssize_t k; size_t got = 0;
       fflush(stdout);
@@ -305,7 +445,7 @@ int main(int argc, char ** argv) {
         FILE * out = fdopen(fd[1], "w");
         close(fd[0]);
         { int dn = open("/dev/null", 1); if (dn >= 0) { dup2(dn, 2); } }  /* recorder diagnostics */
-        run_setting(root, &sets[i], nw, dir, out);
+        run_setting(&sets[i], nw, dir, out);
         fclose(out);
         _exit(0);
       }
